@@ -58,6 +58,11 @@ struct Scenario {
     /// channel after it opened (PeerConnection::create_data_channel can race the association's
     /// own OPEN the same way): the peer answers every OPEN with an ACK
     dup_open: u32,
+    /// (side, channel): sender 0 of that side and channel closes the channel through the public
+    /// `close_data_channel` after its last message, while the other channels keep going.  From
+    /// then on the channel is "reported closed": only the prefix clause applies to it, every other
+    /// channel of the association stays under the progress clause
+    closes: Vec<(char, u16)>,
     label: String,
 }
 
@@ -89,6 +94,7 @@ impl Scenario {
             "max_burst": self.max_burst, "max_cwnd": self.max_cwnd, "max_buffered": self.max_buffered,
             "force_tsn_a": self.force_tsn_a, "force_tsn_b": self.force_tsn_b, "a_is_client": self.a_is_client,
             "idle_ms": self.idle_ms, "tail": self.tail, "dup_open": self.dup_open,
+            "closes": self.closes.iter().map(|(s, c)| json!([s.to_string(), c])).collect::<Vec<_>>(),
         })
     }
     fn from_json(v: &Value) -> Scenario {
@@ -129,6 +135,14 @@ impl Scenario {
             idle_ms: v["idle_ms"].as_u64().unwrap_or(0),
             tail: v["tail"].as_u64().unwrap_or(0) as u32,
             dup_open: v["dup_open"].as_u64().unwrap_or(0) as u32,
+            closes: v["closes"]
+                .as_array()
+                .map(|a| {
+                    a.iter()
+                        .filter_map(|x| Some((x[0].as_str()?.chars().next()?, x[1].as_u64()? as u16)))
+                        .collect()
+                })
+                .unwrap_or_default(),
         }
     }
     fn rtc_config(&self) -> RtcConfiguration {
@@ -165,6 +179,7 @@ fn default_scn(kind: &str, label: &str) -> Scenario {
         idle_ms: 0,
         tail: 3,
         dup_open: 0,
+        closes: vec![],
         label: label.into(),
     }
 }
@@ -463,7 +478,9 @@ async fn run_scenario(scn: &Scenario, watchdog: Duration) -> Outcome {
         let keep = keep_alive.clone();
         let local: Vec<Arc<DataChannel>> = ep.channels.clone();
         let wire = rig.wire.clone();
-        let tail = scn.tail;
+        let closer = s.sender == 0 && scn.closes.contains(&(s.side, s.ch));
+        // nothing is sent on a channel that gets closed once the main phase is over
+        let tail = if scn.closes.iter().any(|(_, c)| *c == s.ch) { 0 } else { scn.tail };
         aux.push(tokio::spawn(async move {
             // wait for Open of channel s.ch on this side (local object or in-band peer object)
             let opened = loop {
@@ -493,6 +510,12 @@ async fn run_scenario(scn: &Scenario, watchdog: Duration) -> Outcome {
             for phase in 0..2 {
                 let count = if phase == 0 { s.n } else { tail };
                 if phase == 1 {
+                    if closer && !failed {
+                        let r = sctp.close_data_channel(s.ch).await;
+                        if std::env::var("RTCMON_DEBUG").is_ok() {
+                            eprintln!("close_data_channel side={} ch={} -> {:?}", s.side, s.ch, r.is_ok());
+                        }
+                    }
                     sh2.main_done.fetch_add(1, Ordering::SeqCst);
                     // tail messages go out only after the wire has fully healed
                     while wire.heal_time().is_none() && !stop.load(Ordering::SeqCst) {
@@ -606,9 +629,10 @@ async fn run_scenario(scn: &Scenario, watchdog: Duration) -> Outcome {
         let closed = rig.a.sctp.close_reason().is_some()
             || rig.b.sctp.close_reason().is_some()
             || sh.chans.lock().iter().any(|c| {
-                c.events
-                    .iter()
-                    .any(|e| matches!(e, ChEv::Close | ChEv::End))
+                !scn.closes.iter().any(|(_, id)| *id == c.id)
+                    && c.events
+                        .iter()
+                        .any(|e| matches!(e, ChEv::Close | ChEv::End))
             });
         if closed {
             end = EndReason::Closed;
@@ -622,7 +646,7 @@ async fn run_scenario(scn: &Scenario, watchdog: Duration) -> Outcome {
             let mut want = 0usize;
             let mut got = 0usize;
             for c in &scn.chans {
-                if !c.reliable() {
+                if !c.reliable() || scn.closes.iter().any(|(_, id)| *id == c.id) {
                     continue;
                 }
                 for side in ['a', 'b'] {
@@ -1212,9 +1236,8 @@ fn oracle_c12(o: &Outcome) -> (Verdict, bool) {
                     if opens == 0 {
                         msg_before_open = true;
                     }
-                    if closes > 0 {
-                        after_close = true;
-                    }
+                    // a message behind Close is not excluded by the statement ("Close at most
+                    // once"): not judged
                 }
                 ChEv::Close => closes += 1,
                 ChEv::End => {}
@@ -1837,6 +1860,57 @@ fn gen_c01(args: &Args) -> Vec<Scenario> {
             }
         }
     }
+    out.extend(gen_close(&mut rng, "c01", args.tier.pick(6, 60)));
+    out
+}
+
+/// One side closes one (or two) of several channels through the public API while the other
+/// channels - stream id 0 among them - carry traffic in both directions before, during and after
+/// the stream reset.  The closed channel is "reported closed"; every other channel stays under
+/// the full clauses.
+fn gen_close(rng: &mut Rng, kind: &str, n: u64) -> Vec<Scenario> {
+    let mut out = vec![];
+    for i in 0..n {
+        let mut s = default_scn(kind, &format!("chan-close#{i}"));
+        let survivors: Vec<u16> = if i % 3 == 2 { vec![0, 3, 7] } else { vec![0, 3] };
+        let victims: Vec<u16> = if i % 4 == 3 { vec![2, 5] } else { vec![2] };
+        s.chans = vec![];
+        for (k, id) in survivors.iter().enumerate() {
+            let mut c = reliable_chan(*id);
+            if kind == "c12" && k > 0 {
+                // other channel types among the survivors
+                match (i + k as u64) % 4 {
+                    0 => c.ordered = false,
+                    1 => c.max_retransmits = Some(2),
+                    2 => {
+                        c.ordered = false;
+                        c.max_lifetime_ms = Some(200);
+                    }
+                    _ => {}
+                }
+            }
+            s.chans.push(c);
+        }
+        for id in &victims {
+            s.chans.push(reliable_chan(*id));
+        }
+        s.plan = if i % 2 == 0 { Plan::default() } else { random_plan(rng, false) };
+        let gap = *rng.pick(&[1500u64, 3000, 6000]);
+        for id in &survivors {
+            for side in ['a', 'b'] {
+                s.sends.push(SendSpec { side, ch: *id, sender: 0, n: 40, mode: "small".into(), seed: rng.next_u64(), gap_us: gap });
+            }
+        }
+        for (k, id) in victims.iter().enumerate() {
+            let side = if (i + k as u64) % 2 == 0 { 'a' } else { 'b' };
+            // the closer sends a few messages first, so that the reset falls into the middle of
+            // the survivors' traffic; only the closer sends on the victim
+            let n = *rng.pick(&[1u32, 6, 12]);
+            s.sends.push(SendSpec { side, ch: *id, sender: 0, n, mode: "small".into(), seed: rng.next_u64(), gap_us: gap });
+            s.closes.push((side, *id));
+        }
+        out.push(s);
+    }
     out
 }
 
@@ -1992,6 +2066,7 @@ fn gen_c12(args: &Args) -> Vec<Scenario> {
         s.sends.push(SendSpec { side: 'a', ch: 2, sender: 0, n: 66_000, mode: "tiny".into(), seed: 10, gap_us: 0 });
         out.push(s);
     }
+    out.extend(gen_close(&mut rng, "c12", args.tier.pick(6, 60)));
     out
 }
 
